@@ -83,6 +83,10 @@ type trackedWriter struct {
 	failW  bool
 	failC  bool
 	closed bool
+	// failClose, if non-nil, is consulted when Close is called: true makes Close
+	// fail without reaching the backend writer (as a buffering writer whose final
+	// flush is lost).
+	failClose func() bool
 }
 
 func (w *trackedWriter) done() {
@@ -99,7 +103,13 @@ func (w *trackedWriter) Write(p []byte) (int, error) {
 	return w.BlobWriter.Write(p)
 }
 
-func (w *trackedWriter) Close() error { w.done(); return w.BlobWriter.Close() }
+func (w *trackedWriter) Close() error {
+	w.done()
+	if w.failClose != nil && w.failClose() {
+		return ErrInjectedBackend
+	}
+	return w.BlobWriter.Close()
+}
 func (w *trackedWriter) Cancel() error { w.done(); return w.BlobWriter.Cancel() }
 func (w *trackedWriter) Commit(d ociregistry.Digest) (ociregistry.Descriptor, error) {
 	if w.failC {
@@ -122,6 +132,8 @@ type FaultPlan struct {
 	// IterFailAfter returns after how many items a listing delivers err (-1: never).
 	IterFailAfter func(c *Call) (int, error)
 	WriterFaults  func(c *Call) (failWrite, failCommit bool)
+	// WriterCloseFails is asked each time a writer handed out by the backend is closed.
+	WriterCloseFails func() bool
 	// IterFaultsDelivered counts the listing errors actually handed to a consumer
 	// (a listing that fails by itself first, or whose consumer stops first, never
 	// gets to the injected one).
@@ -171,6 +183,7 @@ func Wrap(inner ociregistry.Interface, t *Tracker, plan *FaultPlan) ociregistry.
 		if plan.WriterFaults != nil {
 			tw.failW, tw.failC = plan.WriterFaults(c)
 		}
+		tw.failClose = plan.WriterCloseFails
 		return tw, nil
 	}
 	return &ociregistry.Funcs{
